@@ -719,18 +719,6 @@ def shim(names):
                 return canv
             patch(urwid.Scrollable, "render", sc_render)
             setattr(urwid.Scrollable, "render", wm.cache_widget_render(urwid.Scrollable))
-        if "cleanup-drops-deps-of-collected-canvas" in names:
-            orig_cleanup = CanvasCache.__dict__["cleanup"].__func__
-
-            def cleanup(cls, ref):
-                info = cls._refs.get(ref, None)
-                dependants = list(cls._deps.get(info[0], ())) if info else []
-                orig_cleanup(cls, ref)
-                if info and info[0] not in cls._widgets:
-                    # the dependants list went away with the last canvas: who depended on it can no longer be told
-                    for d in dependants:
-                        cls.invalidate(d)
-            patch(CanvasCache, "cleanup", classmethod(cleanup))
         if "pile-hidden-child" in names:
             pile_fn = urwid.Pile.render.original_fn
 
@@ -790,7 +778,7 @@ PUBLIC_IDS = set()     # ids of the widgets reachable through public attributes 
 
 
 ROOT_CAUSES = [["store-checks-widget-not-canvas"], ["pile-hidden-child"], ["columns-hidden-child"], ["frame-hidden-child"], ["overlay-hidden-top"],
-               ["scrollable-render-moves-scrollpos"], ["cleanup-drops-deps-of-collected-canvas"]]
+               ["scrollable-render-moves-scrollpos"]]
 
 
 def run_real(case):
